@@ -6,14 +6,25 @@ Import ListNotations.
 Local Open Scope Q_scope.
 
 Definition q_ltb (a b : Q) : bool := negb (Qle_bool b a).
+(* reduced after every operation: the inputs are dyadic, unreduced sums square the
+   denominators *)
+Definition qadd (a b : Q) : Q := Qred (a + b).
+Definition qsub (a b : Q) : Q := Qred (a - b).
+Definition qmul (a b : Q) : Q := Qred (a * b).
+Definition qdiv (a b : Q) : Q := Qred (a / b).
 Definition q_of_nat (n : nat) : Q := inject_Z (Z.of_nat n).
 Definition q_bin_cp_position := bin_cp_position Q q_ltb 0.
-Definition q_apr_size := apr_size Q Qminus Qdiv q_ltb q_of_nat.
-Definition q_residuals := residuals Q Qminus.
-Definition q_apr_sum_core := apr_sum_core Q Qplus Qmult Qdiv Qabs q_ltb 0 q_of_nat.
-Definition q_idt_sum_core := idt_sum_core Q Qplus Qminus Qdiv Qabs q_ltb 0 q_of_nat.
-Definition q_cp_magnitude := cp_magnitude Q Qplus Qminus Qdiv Qabs q_ltb 0 q_of_nat.
-Definition q_idt_sum_75_core := idt_sum_75_core Q Qplus Qminus Qmult Qdiv Qabs q_ltb 0 (1000000 # 1).
+Definition q_apr_size := apr_size Q qsub qdiv q_ltb q_of_nat.
+Definition q_residuals := residuals Q qsub.
+Definition q_apr_sum_core := apr_sum_core Q qadd qmul qdiv Qabs q_ltb 0 q_of_nat.
+Definition q_idt_sum_core := idt_sum_core Q qadd qsub qdiv Qabs q_ltb 0 q_of_nat.
+Definition q_cp_magnitude := cp_magnitude Q qadd qsub qdiv Qabs q_ltb 0 q_of_nat.
+Definition q_idt_sum_75_core := idt_sum_75_core Q qadd qsub qmul qdiv Qabs q_ltb 0 (1000000 # 1).
+
+Definition q_bln_variation_core := bln_variation_core Q qadd qsub qmul qdiv Qabs q_ltb 0 q_of_nat.
+Definition q_bln_slope_core := bln_slope_core Q qadd qsub qmul qdiv q_ltb 0 q_of_nat.
+Definition q_cp_curvature_core := cp_curvature_core Q qadd qsub qmul qdiv Qabs q_ltb 0 q_of_nat.
+Definition q_opt_abs (v : option Q) : option Q := option_map Qabs v.
 
 (* lo <= v <= hi *)
 Definition q_within (lo hi v : Q) : bool := Qle_bool lo v && Qle_bool v hi.
